@@ -38,6 +38,12 @@ def make_inputs(rng, kind):
             out.append(b[:off] + struct.pack(">I", len(body) - 4) + body + struct.pack(">I", zlib.crc32(body) & 0xffffffff) + b[off + 12 + ln:])
         out.append(b"\x89PNG\r\n\x1a\n" + bytes(20))
         return out
+    if kind == "chunky":
+        # files with ancillary chunks, each with an ICC profile that is kept and recompressed (work outside the image pipeline that
+        # must not wait for the pool either)
+        for cs_ in ("iccp-other", "iccp-other", "iccp-srgb", "both", "iccp-other", "sRGB"):
+            out.append(chunkgen.gen_png(rng, with_colorspace=cs_, c2pa=False)[0])
+        return out
     if kind == "big":
         # one very large (64 MiB of raw data and a little more) but trivially compressible image: size-dependent code paths
         import struct
@@ -67,7 +73,7 @@ def run(rep):
         threads = [1, 2, 3, 16]
         concs = [1, 3, 9]
         optsets = [("-", "png"), ("fast=0,filters=0+1+4+9", "png"), ("-", "apng"), ("timeout=0", "png"), ("fast=0,filters=0+1+4+9,timeout=0", "apng"),
-                   ("zopfli=1,fast=0,filters=0+5", "png")]
+                   ("zopfli=1,fast=0,filters=0+5", "png"), ("-", "chunky")]
         seeds = [0, 1 + rng.randrange(1 << 30)]
         watchdog = 60
     else:
@@ -75,14 +81,14 @@ def run(rep):
         concs = [1, 2, 5, 16, 64]
         optsets = [("-", "png"), ("fast=0,filters=0+1+4+9", "png"), ("preset=5", "png"), ("-", "apng"), ("fast=0,filters=0+5", "apng"),
                    ("timeout=0", "png"), ("fast=0,filters=0+1+4+9,timeout=0", "png"), ("timeout=0", "apng"),
-                   ("zopfli=1,fast=0,filters=0+5", "png"), ("zopfli=1,fast=0,filters=0+1+9", "apng")]
+                   ("zopfli=1,fast=0,filters=0+5", "png"), ("zopfli=1,fast=0,filters=0+1+9", "apng"), ("-", "chunky"), ("preset=4,strip=safe", "chunky")]
         seeds = [0] + [1 + rng.randrange(1 << 30) for _ in range(3)]
         watchdog = 600
     tmp = tempfile.mkdtemp(prefix="oxiverif-c16-")
     jobs = []
     try:
         files = {}
-        for kind in ("png", "apng", "big", "faulty"):
+        for kind in ("png", "apng", "big", "faulty", "chunky"):
             ins = make_inputs(rng, kind)
             files[kind] = os.path.join(tmp, kind + ".txt")
             open(files[kind], "w").write("\n".join(x.hex() for x in ins) + "\n")
